@@ -149,17 +149,15 @@ def replay_span(job):
                     break
             if bad:
                 break
-        # (b) exactly the occurrences the specification lists, at its offsets
+        # (b) the occurrences the specification lists, at its offsets. The STATEMENT only says that a reported location points at the reported
+        # item - clause (a); which occurrences are reported, and how often, is C19's subject. A difference here that passed (a) is therefore
+        # recorded as a note (returned with a "note:" signature), not judged.
         if not bad:
             for kind in ("variable", "local", "filter", "tag"):
-                bad = _diff(route, kind, got[kind], want[kind])
-                if bad:
+                d = _diff(route, kind, got[kind], want[kind])
+                if d:
+                    fails.append((d[0], {"note": True}, "note:" + d[1]))
                     break
-        if not bad:
-            stray = [g for g in got["global"] if g not in want["variable"]]
-            if stray:
-                bad = (f"{route}: global {stray[0][0]!r} reported at {stray[0][1]}:{stray[0][2]} is not an occurrence of a variable", "global:extra",
-                       {"expected": want["variable"], "reported": got["global"]})
         # Span.line_col of the named template's source agrees with the specification's line / column
         if not bad:
             for kind, lst in got.items():
@@ -168,7 +166,7 @@ def replay_span(job):
                         lc = tuple(Span(tn, idx).line_col(tpl[tn]))
                     except Exception as e:
                         lc = f"raised {type(e).__name__}"
-                    if lc != tuple(linecol[(name, tn, idx)]):
+                    if (name, tn, idx) in linecol and lc != tuple(linecol[(name, tn, idx)]):
                         bad = (f"{route}: Span.line_col of {kind} {name!r} at {tn}:{idx} is {lc}, the source has it at {tuple(linecol[(name, tn, idx)])}",
                                "line_col", {})
                         break
@@ -477,7 +475,13 @@ def run(tier: str) -> int:
     for case, fails in zip(span_cases, span_fails):
         ck.case((case["src"], json.dumps(case["ps"], sort_keys=True)), nontrivial=any(i["o"] > 0 for i in case["items"]))
         ck.validated()
-        for what, detail, sig in fails[:2]:
+        notes = [f for f in fails if f[2].startswith("note:")]
+        if notes:
+            ck.cov["occurrence_list_differs_note"] = ck.cov.get("occurrence_list_differs_note", 0) + len(notes)
+            ck.cov.setdefault("occurrence_list_notes", [])
+            if len(ck.cov["occurrence_list_notes"]) < 5:
+                ck.cov["occurrence_list_notes"].append(notes[0][0][:200])
+        for what, detail, sig in [f for f in fails if not f[2].startswith("note:")][:2]:
             detail["expected_items"] = [(i["k"], i["n"], i["tn"], i["o"]) for i in case["items"]]
             ck.fail(what, detail, sig="span:" + sig)
     # ---- errors ----
